@@ -139,14 +139,14 @@ func (self *FieldMask) reset() {
 func (self *FieldMask) init(desc *thrift_reflection.TypeDescriptor, paths ...string) error {
 	// horizontal traversal...
 	for _, path := range paths {
-		if err := self.addPath(path, desc); err != nil {
+		if err := self.addPath(path, desc, true); err != nil {
 			return fmt.Errorf("Parsing path %q  error: %v", path, err)
 		}
 	}
 	return nil
 }
 
-func (cur *FieldMask) addPath(path string, curDesc *thrift_reflection.TypeDescriptor) error {
+func (cur *FieldMask) addPath(path string, curDesc *thrift_reflection.TypeDescriptor, root bool) error {
 	// println("[SetPath]: ", path)
 
 	curDesc = unwrapDesc(curDesc)
@@ -155,6 +155,14 @@ func (cur *FieldMask) addPath(path string, curDesc *thrift_reflection.TypeDescri
 	}
 
 	it := newPathIter(path)
+	if root {
+		// NOTICE: a whole path must begin with root '$'
+		if tok := it.Next(); tok.Type() != pathTypeRoot {
+			return errPath(tok, "isn't root '$'")
+		}
+		cur.typ = switchFt(curDesc)
+		// cur.path = jsonPathRoot
+	}
 	for it.HasNext() {
 		// println("desc: ", curDesc.Name)
 
@@ -166,9 +174,7 @@ func (cur *FieldMask) addPath(path string, curDesc *thrift_reflection.TypeDescri
 		// println("stoken: ", stok.String())
 
 		if styp == pathTypeRoot {
-			cur.typ = switchFt(curDesc)
-			// cur.path = jsonPathRoot
-			continue
+			return errPath(stok, "unexpected root '$'")
 
 		} else if styp == pathTypeField {
 			// get struct descriptor
@@ -314,7 +320,7 @@ func (cur *FieldMask) addPath(path string, curDesc *thrift_reflection.TypeDescri
 				// println("setInt ", id, nextFt)
 				next := cur.setInt(id, nextFt, len(ids))
 				// next.path = strconv.Itoa(id)
-				if err := next.addPath(nextPath, et); err != nil {
+				if err := next.addPath(nextPath, et, false); err != nil {
 					return err
 				}
 			}
@@ -419,7 +425,7 @@ func (cur *FieldMask) addPath(path string, curDesc *thrift_reflection.TypeDescri
 				for _, id := range ids {
 					next := cur.setInt(id, nextFt, len(ids))
 					// next.path = strconv.Itoa(id)
-					if err := next.addPath(nextPath, et); err != nil {
+					if err := next.addPath(nextPath, et, false); err != nil {
 						return err
 					}
 				}
@@ -431,7 +437,7 @@ func (cur *FieldMask) addPath(path string, curDesc *thrift_reflection.TypeDescri
 				for _, id := range strs {
 					next := cur.setStr(id, nextFt, len(strs))
 					// next.path = strconv.Quote(id)
-					if err := next.addPath(nextPath, et); err != nil {
+					if err := next.addPath(nextPath, et, false); err != nil {
 						return err
 					}
 				}
